@@ -317,6 +317,81 @@ static void do_dyntrack()
     printf("end\n");
 }
 
+// rfblob <id> <n> <it> <qmin> <qmax> <pmin> <pmax> <linear> <dynamic> <angle> <revpart> <VRF> <V0> <fRF>
+//        <phasespread> <amplspread> <modampl> <modtimeinc> <steps> <seed> <renew> <np> np*(x y)
+// Every RF map main() can build (RFKickMap / DynamicRFKickMap, each with the linear and the sinusoidal constructor,
+// called as main() calls them) driven as main() drives it: per step `rfm->apply(); rfm->applyToAll(ps);` (both through
+// the SourceMap interface) on a grid holding a unit hat-blob centred on particle 0; the kicked grid is the next step's
+// source (the RF kick moves charge along the energy axis only), every <renew> steps a fresh blob is put on particle 0.
+// The modulation queue of the dynamic map is recomputed by the map's own __calcModulation after reseeding its PRNG.
+// prints: rf (_linear _syncphase _bl2phase), queue (phase ampl ... ; empty for a static map), per step: pre (particles
+// before applyToAll), offs (the map's _offset after apply(): the table the grid has just been kicked with), rfpos
+// (particles after applyToAll), rfmom (charge and first moments of the kicked grid)
+static void do_rfblob()
+{
+    std::string id = next();
+    unsigned n = nextl(), it = nextl();
+    float qmin = nextf(), qmax = nextf(), pmin = nextf(), pmax = nextf();
+    unsigned linear = nextl(), dynamic = nextl();
+    float angle = nextf();
+    double revpart = nextd(), VRF = nextd(), V0 = nextd(), fRF = nextd();
+    float phasespread = nextf(), amplspread = nextf(), modampl = nextf();
+    double modtimeinc = nextd();
+    unsigned steps = nextl();
+    unsigned long seed = nextl();
+    unsigned renew = nextl();
+    unsigned np = nextl();
+    std::vector<PhaseSpace::Position> ps(np);
+    for (auto& p : ps) { p.x = nextf(); p.y = nextf(); }
+    auto g1 = mkps(n, 1, qmin, qmax, pmin, pmax);
+    auto g2 = mkps(n, 1, qmin, qmax, pmin, pmax);
+    auto deposit = [&]() {
+        for (size_t i = 0; i < (size_t)n * n; i++) { g1->getData()[i] = 0; g2->getData()[i] = 0; }
+        float xi, yi;
+        float xf = std::modf(ps[0].x, &xi), yf = std::modf(ps[0].y, &yi);
+        unsigned ix = (unsigned)xi, iy = (unsigned)yi;
+        float wx[2] = {1.0f - xf, xf}, wy[2] = {1.0f - yf, yf};
+        for (int a = 0; a < 2; a++)
+            for (int b = 0; b < 2; b++)
+                if (ix + a < n && iy + b < n) g1->getData()[(ix + a) * n + iy + b] = wx[a] * wy[b];
+    };
+    deposit();
+    auto itp = static_cast<SourceMap::InterpolationType>(it);
+    std::shared_ptr<RFKickMap> rf;
+    std::shared_ptr<DynamicRFKickMap> drf;
+    if (!dynamic && linear) rf.reset(new RFKickMap(g1, g2, angle, fRF, itp, false, nullptr));
+    else if (!dynamic) rf.reset(new RFKickMap(g1, g2, revpart, VRF, fRF, V0, itp, false, nullptr));
+    else if (linear) drf.reset(new DynamicRFKickMap(g1, g2, n, n, angle, revpart, fRF, phasespread, amplspread, modampl,
+                                                    modtimeinc, steps, itp, false, nullptr));
+    else drf.reset(new DynamicRFKickMap(g1, g2, n, n, revpart, VRF, fRF, V0, phasespread, amplspread, modampl,
+                                        modtimeinc, steps, itp, false, nullptr));
+    if (drf) {
+        unconst(drf->_prng).seed(seed);
+        unconst(drf->_dist).reset();
+        drf->_next_modulation = drf->__calcModulation(steps);
+        rf = drf;
+    }
+    std::shared_ptr<SourceMap> rfm = rf;
+    printf("case %s\nrf %u", id.c_str(), (unsigned)rf->_linear);
+    pf(rf->_syncphase); pd(rf->_bl2phase);
+    printf("\nqueue");
+    if (drf) { auto q = drf->_next_modulation; while (!q.empty()) { pf(q.front()[0]); pf(q.front()[1]); q.pop(); } }
+    printf("\n");
+    for (unsigned k = 0; k < steps; k++) {
+        if (renew > 0 && k > 0 && k % renew == 0) deposit();
+        print_pos("pre", ps);
+        rfm->apply();
+        printf("offs");
+        for (unsigned i = 0; i < n; i++) pf(rf->_offset[i]);
+        printf("\n");
+        rfm->applyToAll(ps);
+        print_pos("rfpos", ps);
+        moments(g2, n, "rfmom");
+        std::copy_n(g2->getData(), (size_t)n * n, g1->getData());
+    }
+    printf("end\n");
+}
+
 // load <id> <n> <qmin> <qmax> <pmin> <pmax> <np> np*(q p)
 // what main() does with a line of the tracking file: {grid->x(q), grid->y(p)}
 static void do_load()
@@ -340,5 +415,5 @@ static void do_load()
 int main(int argc, char** argv)
 {
     return run_main(argc, argv, {{"track", do_track}, {"blob", do_blob}, {"ens", do_ens}, {"dyntrack", do_dyntrack},
-                                 {"load", do_load}});
+                                 {"load", do_load}, {"rfblob", do_rfblob}});
 }
